@@ -182,6 +182,7 @@ func (w *World) BuildFuncUnit(con *Contract) (u *Unit) {
 	if con.Flags["maypanic"] {
 		u.mayPanic = true
 	}
+	u.noInfer = con.Flags["noinfer"]
 	if con.Flags["nonblocking"] {
 		u.nonBlocking = true
 		u.Trusted["sequential semantics for channels in "+con.Target+": no receiver runs concurrently, a send needs room in the queue"] = true
@@ -240,6 +241,7 @@ func (w *World) BuildLemmaUnit(con *Contract) (u *Unit) {
 		f.inl[n] = true
 	}
 	u.lemmaMode = true
+	u.noInfer = con.Flags["noinfer"]
 	u.initMaps(fn)
 	u.M0 = u.installGlobals(u.M0, fn)
 	for _, p := range fn.Params {
